@@ -8,7 +8,7 @@ import random
 from .. import common
 from ..codec import Opaque, to_coq, to_coq_opt, same
 
-GEN = ["JsonUtilGen.v"]
+GEN = ['JsonUtilGen.v']
 TRUSTED = ["translator json_util_tr.py", "value-universe model of Python == / sorted / dict (Base/PyVal.v); no NaN, no subclasses of built-ins"]
 ATOMS = [None, False, True, 0, 1, 2, 1.0, -0.0, "", "0", "a", 2 ** 63, float("inf")]
 KEYS = ["a", "0", "", 1, True, None, 1.0, 2]
